@@ -251,3 +251,33 @@ Proof.
   unfold volt_loop. rewrite volt_loop_go_spec. cbn [orb rev app].
   destruct (existsb (out_of_range amp off) vs); reflexivity.
 Qed.
+
+(* ================================================================================================================== *)
+(* not_none_indices *)
+Definition nni_state : Type := (list (option Z) * list (option Z) * Z)%type.
+Definition nni_astep (x : option Z) (st : nni_state) : option nni_state :=
+  let '(sq, ind, idx) := st in
+  match x with
+  | None => Some (sq, ind ++ [None], idx)
+  | Some _ => Some (sq, ind ++ [Some idx], idx + 1)
+  end.
+
+Lemma nni_sim : sim_body_each gen_not_none_indices_body1 nni_astep.
+Proof. sim_body_tac gen_not_none_indices_body1 nni_astep. Qed.
+
+Lemma nni_aeach : forall (l sq ind : list (option Z)) idx,
+  aeach l nni_astep (sq, ind, idx) = Some (sq, ind ++ fst (nni_go l idx), snd (nni_go l idx)).
+Proof.
+  induction l as [|[a|] l IH]; intros sq ind idx; cbn [aeach nni_astep nni_go].
+  - cbn. rewrite app_nil_r. reflexivity.
+  - rewrite IH. destruct (nni_go l (idx + 1)) as [is n]. cbn [fst snd]. rewrite <- app_assoc. reflexivity.
+  - rewrite IH. destruct (nni_go l idx) as [is n]. cbn [fst snd]. rewrite <- app_assoc. reflexivity.
+Qed.
+
+Theorem gen_not_none_indices_eq l : gen_not_none_indices l = Ret (not_none_indices l).
+Proof.
+  unfold gen_not_none_indices. cbv zeta. rewrite (for_each_sim _ _ nni_sim).
+  unfold gen_not_none_indices_state1, gen_not_none_indices_result.
+  pose proof (nni_aeach l l [] 0) as H. unfold nni_state in H. rewrite H. cbn [for_then app].
+  unfold gen_not_none_indices_post1, not_none_indices. destruct (nni_go l 0) as [is n]. reflexivity.
+Qed.
